@@ -155,10 +155,37 @@ class StrEval:
             for v in e.values:
                 out += v.value if isinstance(v, ast.Constant) else str(self.ev(v.value, env))
             return out
+        if isinstance(e, (ast.ListComp, ast.GeneratorExp)) and len(e.generators) == 1 and not e.generators[0].is_async:
+            g = e.generators[0]
+            seq = self.ev(g.iter, env)
+            if not isinstance(seq, (tuple, list)):
+                raise Unsupported('comprehension over `%s`' % src(g.iter, 40))
+            out = []
+            for item in seq:
+                env2 = dict(env)
+                if isinstance(g.target, ast.Name):
+                    env2[g.target.id] = item
+                elif isinstance(g.target, (ast.Tuple, ast.List)) and isinstance(item, (tuple, list)) and len(item) == len(g.target.elts) and \
+                        all(isinstance(x, ast.Name) for x in g.target.elts):
+                    env2.update({x.id: y for x, y in zip(g.target.elts, item)})
+                else:
+                    raise Unsupported('comprehension target `%s`' % src(g.target, 40))
+                if all(self.ev(c, env2) for c in g.ifs):
+                    out.append(self.ev(e.elt, env2))
+            return tuple(out)
         if isinstance(e, ast.Call):
             fn = e.func
             if e.keywords:
                 raise Unsupported('keywords')
+            if isinstance(fn, ast.Name) and fn.id in ('zip', 'list', 'tuple', 'reversed', 'enumerate') and fn.id not in env and e.args:
+                vals = [self.ev(a, env) for a in e.args]
+                if not all(isinstance(v, (tuple, list)) for v in vals):
+                    raise Unsupported('`%s` of something that is not a written-out sequence' % fn.id)
+                if fn.id == 'zip':
+                    return tuple(zip(*vals))
+                if len(vals) != 1:
+                    raise Unsupported('arity of `%s`' % fn.id)
+                return {'list': tuple, 'tuple': tuple, 'reversed': lambda v: tuple(reversed(v)), 'enumerate': lambda v: tuple(enumerate(v))}[fn.id](vals[0])
             if isinstance(fn, ast.Name) and fn.id == 'str' and len(e.args) == 1:
                 v = self.ev(e.args[0], env)
                 return v.marker if isinstance(v, Operand) else str(v)
